@@ -255,7 +255,7 @@ def g_plainnest(spec, r):
     as a keyword in another letter case, so flattening the scan must give back the input."""
     while True:
         k = r.randint(1, 5)
-        core = r.choice([netgen.email(r), b"see " + netgen.domain(r) + b" ok", netgen.posix_path(r), b"ping " + netgen.ipv4(r) + b" -n 3",
+        core = r.choice([netgen.email(r), b"see " + netgen.domain(r) + b" ok", b"ping " + netgen.ipv4(r) + b" -n 3",
                          b"ping " + netgen.domain(r) + b"; ping " + netgen.ipv4(r), netgen.exe_name(r).lower()])
         for _ in range(k):
             w = r.randrange(5)
